@@ -24,10 +24,10 @@ PROPS = {
                         "release profile: `index as u16` truncates silently (it does in every profile)"],
     },
     "C14": {
-        "suites": [("entity", 3000, 60000)],
+        "suites": [("entity", 3000, 60000), ("ser", 1200, 6000)],
         "show_constants": True,
-        "proved_scope": "character level: CDATA sections of serialize_cdata concatenate to the input and contain no ]]>; unescaped_gt text decodes to the input and contains no ]]>",
-        "not_proved": "tree level option independence; Pretty placement rules",
+        "proved_scope": "character level: CDATA sections of serialize_cdata concatenate to the input and contain no ]]>; unescaped_gt text decodes to the input and contains no ]]>. Pretty (all trees, all start nodes, all parameter sets, arbitrary escaping functions): erasing the indentation / newline fields of the pretty token stream gives the plain token stream; the pretty string is the plain tokens plus per token 2*indentation spaces in front and at most one LF behind (C14_pretty_content, _conv, C14_pretty_string). Placement, stack level (all stacks): newline only outside mixed / suppressed content and outside xml:space=preserve scope, no whitespace inside mixed / suppressed content at any depth, what StartTagClose pushes (C14_pretty_where_newline, _mixed, _entry); inside a preserve scope the indentation is frozen at the depth of the preserve element (C14_pretty_where_frozen), zero only when that element is outermost (C14_pretty_where_partial); the full-strength rule is refuted by a closed witness (C14_pretty_where_false). Placement, tree level (all trees): the Pretty stack before every event is exactly the entries of the open elements between start node and the event's node, so every token's indentation / newline is prettify on that explicit function of the tree (C14_pretty_where_tree); a token receives indentation or a newline only if no open element strictly above it has a text child or is in the suppress list (C14_pretty_where_tree_mixed, full strength). Doctype: the rule 'doctype name = name in the root start tag' is refuted by a closed witness (C14_doctype_false)",
+        "not_proved": "C14_options (reparse of the output under every parameter set = C01_main, needs the tokenizer contract and the builder) and C14_decl (prolog well-formedness): by the harness oracles only (prolog grammar check, reparse + whitespace diff); a tree-level reading of the preserve rule beyond C14_pretty_where_tree + the stack-level theorems is not stated separately",
         "modelled": EXTERNAL,
         "assumptions": ["NoopNormalizer (identity) is the normalizer"],
     },
@@ -113,5 +113,18 @@ PROPS = {
             "tree hypotheses of the theorems: wf (every tree the public API builds; property C04), Valid path",
             "genawaiter generator in level_order = the plain loop it wraps",
         ],
+    "C16": {
+        "suites": [("ser", 1200, 6000)],
+        "proved_scope": "for every tree, start node and parameter set, for arbitrary escaping functions: concatenated tokens (space-prefixed when flagged) = string serialisation, both directions, and tokens panics exactly when the string entry point returns an error (C16_tokens, _conv, _fail); pretty tokens with indentation/newline applied = pretty string (C16_pretty, _conv); serialize_xml_write writes exactly what serialize_xml_string returns and they fail together, Xot::write / to_string are the default-parameter instances (C16_write, _write_default, _to_string); event stream: per element exactly start-tag-open, inherited declarations (top element only, = in-scope bindings it does not declare), own declarations and attributes in view order, start-tag-close, children in order, end-tag (C16_events_element, _inherited, _children), one event per text/comment/PI and none for document/attribute/namespace nodes (C16_events_leaf), every event tagged with a normal node of the subtree and one of that node's own events (C16_events_tagged), opening events = normal non-document nodes in pre-order (C16_events_order)",
+        "not_proved": "nothing of the property statement inside the model; the Write entry point is modelled as a byte accumulator (io::Error of the writer is outside the model: Vec<u8> never fails)",
+        "modelled": EXTERNAL,
+        "assumptions": ["NoopNormalizer (identity) is the normalizer", "the std::io::Write target does not fail"],
+    },
+    "C10": {
+        "suites": [("ser", 1200, 6000)],
+        "proved_scope": "first sentence of the property, for every tree whose elements declare no prefix twice, every start node, every parameter set, arbitrary escaping functions: (1) FullnameSerializer level: the top frame of the stack is the nearest-declaration-wins scope of the declaration frames pushed (C10_stack_invariant; kept by push, undone by pop: C10_stack_push, _pop; base case because namespaces_in_scope yields each prefix once: C10_stack_base, _base_inScope); the prefix element_prefix / attribute_prefix choose, looked up by XML-Namespaces rules in the scope of the same declarations, gives back the name's namespace (C10_sound_attribute full strength; C10_sound_partial for elements under the guard 'not (no-namespace name while a default namespace is in scope)'; the unguarded statement is refuted by a closed witness: C10_sound_false); an error is returned exactly when no usable prefix is in scope (C10_error_element, _attribute). (2) the serialisation run: before every event of gen_outputs the stack stands for the declaration lists of the open elements between the start node and the event's node on top of namespaces_in_scope(start) (C10_stack_traversal: push at StartTagOpen, pop at EndTag, balanced over every subtree), hence every start-tag, end-tag and attribute name the run renders resolves in those declarations to the node's expanded name (C10_sound_tree_partial, _endtag_partial with the same guard; C10_sound_tree_attribute full strength)",
+        "not_proved": "the theorems resolve names in the declarations of the tree (the Prefix events, C16_events_element), not in the bytes: that a declaration of the XML namespace under another prefix is not written (render_output suppresses it: defect C10:prefix-bound-to-xml-namespace-written-without-declaration) and that URIs are written unescaped (defect C10:namespace-uri-written-unescaped) are outside the theorems and are found by the suite's independent resolver / reparse oracle; a string-level resolver (parsing qnames back out of the token text) is not modelled; C10_repair / C10_iter (create_missing_prefixes) belong to the scope / edit suites",
+        "modelled": EXTERNAL,
+        "assumptions": ["no prefix is declared twice on one element (NodeMap keys are unique: C11)"],
     },
 }
